@@ -119,15 +119,27 @@ func VerifNewDnsEnv(routing *dns.Dns, asisServer netip.AddrPort) (*VerifDnsEnv, 
 			return &DnsCache{NS: ns, Extra: extra, Answer: answers, Deadline: deadline, OriginalDeadline: originalDeadline}, nil
 		},
 		BestDialerChooser: func(ctx context.Context, req *udpRequest, upstream *dns.Upstream) (*dialArgument, error) {
+			// Same shape as ControlPlane.chooseBestDnsDialer with every dialer healthy and at latency 0: the first
+			// (ip version, l4 protocol) pair the upstream supports, target = that family's address + the upstream port.
 			l4 := consts.L4ProtoStr_UDP
-			if upstream.Scheme == dns.UpstreamScheme_TCP {
-				l4 = consts.L4ProtoStr_TCP
-			}
+			ver := consts.IpVersionStr_4
 			var tgt netip.AddrPort
-			if upstream.Ip46 != nil && upstream.Ip4.IsValid() {
-				tgt = netip.AddrPortFrom(upstream.Ip4, upstream.Port)
+			if upstream.Ip46 != nil {
+				vers, l4s := upstream.SupportedNetworks()
+				if len(l4s) > 0 {
+					l4 = l4s[0]
+				}
+				if len(vers) > 0 {
+					ver = vers[0]
+				}
+				switch {
+				case ver == consts.IpVersionStr_4 && upstream.Ip4.IsValid():
+					tgt = netip.AddrPortFrom(upstream.Ip4, upstream.Port)
+				case ver == consts.IpVersionStr_6 && upstream.Ip6.IsValid():
+					tgt = netip.AddrPortFrom(upstream.Ip6, upstream.Port)
+				}
 			}
-			return &dialArgument{l4proto: l4, ipversion: consts.IpVersionStr_4, bestTarget: tgt, mark: e.id}, nil
+			return &dialArgument{l4proto: l4, ipversion: ver, bestTarget: tgt, mark: e.id}, nil
 		},
 		TimeoutExceedCallback: func(*dialArgument, error) {},
 		IpVersionPrefer:       0,
